@@ -111,6 +111,11 @@ def has_wit(tx):
 @spec(opaque=True, sig=[Obj(CTransaction), Bool], ret=Bytes)
 def enc_tx(tx, w):
     """transaction encoding; BIP144 marker/flag form iff w and some witness stack non-empty"""
+    return enc_tx_parts(tx, w)
+
+
+@spec
+def enc_tx_parts(tx, w):
     if w and has_wit(tx):
         return (le_bytes(tx.nVersion % U32, 4) + b'\x00\x01'
                 + compact_size(len(tx.vin)) + enc_txins(tx.vin)
